@@ -65,8 +65,8 @@ type cfg struct {
 }
 
 func (c cfg) term() string {
-	return fmt.Sprintf("{| c_ext := %s; c_maxActive := %d; c_maxKeyLen := %d; c_maxValueLen := %d; c_maxTxEntries := %d; c_embedded := %s |}",
-		vk.Bool(c.ext), c.maxActive, c.maxKeyLen, c.maxValueLen, c.maxTxEntries, vk.Bool(c.embedded))
+	return fmt.Sprintf("{| c_ext := %s; c_maxActive := %d; c_maxKeyLen := %d; c_maxValueLen := %d; c_maxTxEntries := %d |}",
+		vk.Bool(c.ext), c.maxActive, c.maxKeyLen, c.maxValueLen, c.maxTxEntries)
 }
 
 // limits of the primary and of an unrestricted replica (tx holders are MaxTxEntries*MaxKeyLen bytes
@@ -318,13 +318,6 @@ type storeCase struct {
 	idx                int
 	staleHit           bool
 	lost               bool
-	// reAppended: a delivery was accepted after a discard in this session, i.e. records were appended
-	// behind discarded ones. A reopening then takes the discarded records back and leaves the newer
-	// ones behind the logical end of the tx log; what a later append overwrites of them depends on
-	// byte sizes (an identical re-delivery overwrites its twin exactly and the records behind it come
-	// back at the next reopening). The model drops such left-overs at the next append: the case
-	// ends at the reopening.
-	reAppended bool
 }
 
 func (sc *storeCase) find(text string) {
@@ -429,9 +422,6 @@ func (sc *storeCase) deliver(b []byte, skip bool, genuineID uint64, what string)
 			sc.find(fmt.Sprintf("rejected delivery (%s, error %v) changed the replica state %v -> %v; export %x", what, err, before.js(), after.js(), b))
 		}
 	case 0:
-		if sc.discardedSinceOpen {
-			sc.reAppended = true
-		}
 		id := hdr.ID
 		var palh [sha256.Size]byte
 		known := id >= 1 && id <= sc.h.n
@@ -492,14 +482,10 @@ func (sc *storeCase) restart() error {
 	after := obsOf(sc.replica)
 	sc.add(fmt.Sprintf("SRestart %s", after.term(sc.in)), map[string]any{"op": "restart", "after": after.js()})
 	sc.stats["restart"]++
-	if after.pid < before.pid && (sc.c.embedded || !sc.discardedSinceOpen) {
-		// (after a discard in the same session, reopening resurrects the discarded records and drops
-		// what was precommitted behind them: documented at DiscardPrecommittedTxsSince)
-		if sc.c.embedded {
-			sc.find(fmt.Sprintf("Close+Open of a replica store with embedded values dropped its precommitted transactions %d..%d (durable precommits already reported to a primary are lost)", after.pid+1, before.pid))
-		} else {
-			sc.find(fmt.Sprintf("Close+Open of the replica store dropped precommitted transactions %d..%d", after.pid+1, before.pid))
-		}
+	if after.pid < before.pid && !sc.discardedSinceOpen {
+		// (after a discard in the same session, reopening takes the discarded records back and drops
+		// what was precommitted behind them: documented at DiscardPrecommittedTxsSince, and modelled)
+		sc.find(fmt.Sprintf("Close+Open dropped precommitted transactions %d..%d of the replica store (durable precommits already reported to a primary are lost)", after.pid+1, before.pid))
 	}
 	if after.cid != before.cid || after.calh != before.calh {
 		sc.find(fmt.Sprintf("Close+Open changed the committed state of the replica %v -> %v", before.js(), after.js()))
@@ -507,9 +493,6 @@ func (sc *storeCase) restart() error {
 	sc.discardedSinceOpen = false
 	sc.restarts++
 	sc.recheckDiverged() // reopening takes discarded records back
-	if sc.reAppended {
-		sc.lost = true
-	}
 	return nil
 }
 
